@@ -34,6 +34,7 @@ REF_IDENTITY = (
     "std::array::<impl [T; N]>::as_slice",
     "core::array::<impl [T; N]>::as_mut_slice",
     "core::array::<impl [T; N]>::as_slice",
+    "std::slice::from_mut", "core::slice::from_mut", "std::slice::from_ref", "core::slice::from_ref",   # the one-element slice view of a place
     "std::array::<impl std::convert::AsMut<[T]> for [T; N]>::as_mut",
     "core::array::<impl std::convert::AsMut<[T]> for [T; N]>::as_mut",
     "std::array::<impl std::convert::AsRef<[T]> for [T; N]>::as_ref",
@@ -400,6 +401,13 @@ class SymExec:
         if name is None:
             f = self.operand(st, t["func"])
             name = "<indirect:%s>" % (f,)
+        fir = t.get("fn_item_resolved")
+        if fir and fir in self.fb.bodies and len(args) == 2 and args[1][0] in ("agg", "zst") and (args[1][0] == "zst" or args[1][1] == "tuple"):
+            # `f(a, b)` on a function item handed in as `impl Fn*`: what runs is that function, on
+            # the arguments of the tuple (the item itself carries no data)
+            name = fir
+            args = tuple(args[1][4]) if args[1][0] == "agg" else ()
+            t = dict(t, resolved=fir, resolved_local=True, args=[None] * len(args), callee=fir)
         if name == "<T as std::convert::Into<U>>::into":
             ra = [self.fb.ty(a["ty"]).s for a in t.get("resolved_args", []) if "ty" in a]
             if len(ra) == 2:
@@ -519,6 +527,10 @@ class SymExec:
                 self.write(st, dest, v)
                 return {"k": "call", "name": name, "args": args, "locargs": args, "term": v, "inlined": True, "ret": v, "site": site, "dest": dest, "from_fn": (args[0][2], n_)}
         local = (bool(t.get("resolved_local")) or name in self.fb.bodies) and name in self.fb.bodies
+        if local and "::{closure#" in name and (t.get("callee") or "").split("::")[-1] in ("call", "call_mut", "call_once") and len(args) == 2 and args[1][0] == "agg" and args[1][1] == "tuple":
+            # `f(a, b, c)` on a closure value: Fn::call(&f, (a, b, c)) resolved to the closure body,
+            # whose parameters are (environment, a, b, c) - the argument tuple is spread
+            args = (args[0],) + tuple(args[1][4])
         dest = self.place_loc(st, t["dest"])
         # in the recorded call term a reference argument is snapshotted to the pointee's value
         # at the call (hash inputs, comparison operands ... are about bytes, not addresses)
@@ -553,9 +565,10 @@ class SymExec:
         for root in [r for r in st if r[0] == "deref" and mentions_site(r[1], site)]:
             del st[root]
         for i, a in enumerate(t["args"]):
-            ty = self.operand_ty(a)
+            ty = self.operand_ty(a) if a is not None else None
             v = args[i]
-            if ty is not None and ty.k == "ref" and ty.d.get("mut"):
+            is_mut_ref = (ty is not None and ty.k == "ref" and ty.d.get("mut")) or (a is None and v[0] == "ref" and len(v) > 2 and v[2])
+            if is_mut_ref:
                 L = v[1] if v[0] == "ref" else ("deref", v)
                 old = self.read(st, L)
                 self.call_old[(site, i)] = old
